@@ -538,9 +538,26 @@ fn case_with_global(bytes: &[u8], sched_bytes: &[u8], ctx: &mut Ctx) -> Result<(
 pub fn child(seed: u64) -> i32 {
     let log = new_log();
     let g = LogRecorder::new(999, &log);
+    // an emission made while no recorder exists at all goes nowhere ...
+    counter!("before_any_recorder").increment(1);
+    describe_gauge!("before_any_recorder", "d");
     if metrics::set_global_recorder(g).is_err() {
         println!("harness: could not install the global double");
         return 2;
+    }
+    // ... and the same thread's emissions reach the global recorder once it is installed
+    {
+        let before = log.lock().unwrap().len();
+        counter!("after_install_same_thread").increment(1);
+        let l = log.lock().unwrap();
+        if l.iter().any(|e| matches!(&e.op, Op::Register { name, .. } | Op::Describe { name, .. } if name == "before_any_recorder")) {
+            println!("CHILD-FAIL pre-install-emission-delivered an emission made before any recorder existed was delivered");
+            return 1;
+        }
+        if !(l.len() > before && matches!(&l[before].op, Op::Register { name, .. } if name == "after_install_same_thread")) {
+            println!("CHILD-FAIL emission-after-install-not-delivered the thread that emitted before the global recorder was installed does not reach it afterwards");
+            return 1;
+        }
     }
     let _ = GLOBAL_LOG.set(log);
     let cfg = RunCfg { tier: crate::engine::runner::Tier::Quick, seed, scale: 1.0, strict: false, known: vec!["dispatch-after-forget".into(), "restore-after-non-lifo-drop".into()] };
